@@ -314,6 +314,7 @@ def run(ctx):
             prev = (text, {k: v for k, v in kw.items() if k != 'fuzzy_with_tokens'})
             ctx.count('cases')
         long_inputs(ctx, st, lc, P, rng)
+        ymd_shapes(ctx, st, lc, P, rng)
         non_text(ctx, st, P)
         entry_points(ctx, st, P, PP)
         ctx.note('lines_counted_total', lc.n)
@@ -412,6 +413,37 @@ def concurrent_calls(ctx, P, PP, rng):
         _sys.setswitchinterval(old)
 
 
+def ymd_shapes(ctx, st, lc, P, rng):
+    """every shape of a three-member date (numbers from each magnitude class and a month name in each position, each
+    separator, each dayfirst / yearfirst combination): the year/month/day resolution has a branch per shape"""
+    nums = ['1', '07', '12', '13', '25', '31', '32', '59', '99', '100', '2003', '0', '00']
+    seps = ['-', '/', '.', ' ']
+    flags = [{}, {'dayfirst': True}, {'yearfirst': True}, {'dayfirst': True, 'yearfirst': True}]
+    shapes = []
+    for a in nums:
+        for b in nums:
+            shapes.append((a, 'Jan', b))
+            shapes.append(('Sep', a, b))
+            shapes.append((a, b, 'Feb'))
+    for a in nums[:9]:
+        for b in nums[:9]:
+            for c in nums:
+                shapes.append((a, b, c))
+    k = 0
+    for shape in shapes:
+        for kw in flags:
+            k += 1
+            if k % ctx.nshards != ctx.shard:
+                continue
+            if ctx.tier == 'quick' and len(shape[0] + shape[1] + shape[2]) > 6 and k % 3:
+                continue
+            text = rng.choice(seps).join(shape)
+            if rng.random() < .3:
+                text += rng.choice([' 10:30', ' 1pm', 'T01:02:03'])
+            one_case(ctx, st, lc, P, text, ['ymd-shape'], 'str', dict(kw), None, ['ymd'])
+            ctx.count('ymd_shapes')
+
+
 def long_inputs(ctx, st, lc, P, rng):
     sizes = [2000, 5000, 20000] if ctx.tier == 'quick' else [2000, 5000, 20000, 50000]
     for n in sizes:
@@ -471,7 +503,7 @@ def floors(agg, tier):
     if h.get('parser.parse', 0) < need:
         out.append('monitored parse() reached only %d times' % h.get('parser.parse', 0))
     for k, n in (('outcome_ok', need // 20), ('outcome_ParserError', need // 20), ('outcome_OverflowError', 3),
-                 ('long_inputs', 60), ('non_text_calls', 10), ('entry_points_checked', 4), ('concurrent_scheduled_runs', 50),
+                 ('long_inputs', 60), ('ymd_shapes', 1500), ('non_text_calls', 10), ('entry_points_checked', 4), ('concurrent_scheduled_runs', 50),
                  ('concurrent_distinct_interleavings', 30), ('concurrent_free_calls', 1000)):
         if c.get(k, 0) < n:
             out.append('%s only %d (< %d)' % (k, c.get(k, 0), n))
